@@ -61,7 +61,7 @@ def body(ctx):
         for t, nb in TYPES:
             for w in (16, 32, 64):
                 n = w // nb
-                rows = [datarow(rng, nb, w, s) for s in range(ctx.q(1, 3))]
+                rows = [datarow(rng, nb, w, s) for s in range(ctx.q(1, 8))]
                 for off in offsets_unaligned(ctx, w):
                     r = rows[off % len(rows)]
                     for op in ST_U:
@@ -85,7 +85,7 @@ def body(ctx):
                 for off in (0, PAGE - w, 1024 + nb):
                     if off % nb:
                         off -= off % nb
-                    for _ in range(ctx.q(4, 40)):
+                    for _ in range(ctx.q(4, 160)):
                         perm = list(range(n))
                         rng.shuffle(perm)
                         anyidx = [rng.randrange(n) for _ in range(n)]
@@ -107,7 +107,7 @@ def body(ctx):
             for w in (16, 32, 64):
                 n = w // nb
                 for off in (0, PAGE - n * nu, 1024 + nu):
-                    for _ in range(ctx.q(4, 40)):
+                    for _ in range(ctx.q(4, 160)):
                         if t[0] == "f":       # values that need rounding, tiny, huge, negative zero, exactly representable
                             tv = [rng.choice([rng.uniform(-1e6, 1e6), 1.0 + 2.0 ** -rng.randint(20, 40), -0.0, rng.uniform(-1, 1) * 2.0 ** rng.randint(-60, 60), float(rng.randint(-99, 99))]) for _ in range(n)]
                         else:                 # in-range values with fractions (truncation toward zero)
